@@ -4,6 +4,7 @@
   `to_authorship_log_and_initial_working_log`).
 -/
 import GitAiModel.Lemmas.Split3
+import GitAiModel.Lemmas.Split3Mono
 import GitAiModel.Lemmas.SysPartial
 namespace GitAi.Split3
 
@@ -13,12 +14,13 @@ namespace GitAi.Split3
     working-tree line sits relative to the unstaged hunks (`locate`): a line no unstaged hunk touches
     goes to `committed c` when its commit line number `c` is one of the lines the commit added and is
     dropped (pre-existing line) when it is not; a line added by an unstaged hunk is `uncommitted`
-    (pending, working-tree coordinate) — unless it replaces, offset for offset, a line the commit
-    added (committed, then modified again in the working tree), which the code credits to the commit. -/
+    (pending, working-tree coordinate); when it replaces, offset for offset, a line the commit added
+    (committed, then modified again in the working tree) the code credits that commit line to the
+    commit as well (`both`): the committed version is in the note, the working-tree version stays pending. -/
 theorem classify_spec (committed : List Nat) (hunks : List Hunk) (w : Nat) :
     (∀ c, locate hunks w = .unchanged c → c ∈ committed → classify committed hunks w = .committed c) ∧
     (∀ c, locate hunks w = .unchanged c → c ∉ committed → classify committed hunks w = .dropped) ∧
-    (∀ c, locate hunks w = .replaces c → c ∈ committed → classify committed hunks w = .committed c) ∧
+    (∀ c, locate hunks w = .replaces c → c ∈ committed → classify committed hunks w = .both c w) ∧
     (∀ c, locate hunks w = .replaces c → c ∉ committed → classify committed hunks w = .uncommitted w) ∧
     (locate hunks w = .added → classify committed hunks w = .uncommitted w) ∧
     (locate hunks w = .invalid → classify committed hunks w = .dropped) := by
@@ -26,17 +28,17 @@ theorem classify_spec (committed : List Nat) (hunks : List Hunk) (w : Nat) :
   refine ⟨?_, ?_, ?_, ?_, ?_, ?_⟩ <;> intros <;> simp_all
 
 theorem classify_committed_mem (committed : List Nat) (hunks : List Hunk) (w c : Nat)
-    (h : classify committed hunks w = .committed c) : c ∈ committed := by
+    (h : classify committed hunks w = .committed c ∨ ∃ l, classify committed hunks w = .both c l) : c ∈ committed := by
   unfold classify at h
   split at h
   · split at h
-    · rename_i hc; cases h; simpa using hc
-    · cases h
+    · rename_i hc; rcases h with h | ⟨l, h⟩ <;> cases h; simpa using hc
+    · rcases h with h | ⟨l, h⟩ <;> cases h
   · split at h
-    · rename_i hc; cases h; simpa using hc
-    · cases h
-  · cases h
-  · cases h
+    · rename_i hc; rcases h with h | ⟨l, h⟩ <;> cases h; simpa using hc
+    · rcases h with h | ⟨l, h⟩ <;> cases h
+  · rcases h with h | ⟨l, h⟩ <;> cases h
+  · rcases h with h | ⟨l, h⟩ <;> cases h
 
 /-- `added` / `replaces` are only ever answered for a line inside the new range of one of the hunks -/
 theorem locate_in_hunk (hunks : List Hunk) (w : Nat)
@@ -56,18 +58,18 @@ theorem locate_in_hunk (hunks : List Hunk) (w : Nat)
 
 /-- a line that goes to INITIAL is a line some unstaged hunk adds, reported under its own number -/
 theorem classify_uncommitted_mem (committed : List Nat) (hunks : List Hunk) (w l : Nat)
-    (h : classify committed hunks w = .uncommitted l) :
+    (h : classify committed hunks w = .uncommitted l ∨ ∃ c, classify committed hunks w = .both c l) :
     l = w ∧ ∃ g ∈ hunks, g.ns ≤ w ∧ w < g.ns + g.nc := by
   unfold classify at h
   cases hl : locate hunks w with
-  | unchanged c => rw [hl] at h; simp only at h; split at h <;> cases h
+  | unchanged c => rw [hl] at h; simp only at h; split at h <;> rcases h with h | ⟨c', h⟩ <;> cases h
   | replaces c =>
     rw [hl] at h; simp only at h
     split at h
-    · cases h
-    · cases h; exact ⟨rfl, locate_in_hunk hunks w (Or.inr ⟨c, hl⟩)⟩
-  | added => rw [hl] at h; cases h; exact ⟨rfl, locate_in_hunk hunks w (Or.inl hl)⟩
-  | invalid => rw [hl] at h; cases h
+    · rcases h with h | ⟨c', h⟩ <;> cases h; exact ⟨rfl, locate_in_hunk hunks w (Or.inr ⟨c, hl⟩)⟩
+    · rcases h with h | ⟨c', h⟩ <;> cases h; exact ⟨rfl, locate_in_hunk hunks w (Or.inr ⟨c, hl⟩)⟩
+  | added => rw [hl] at h; rcases h with h | ⟨c', h⟩ <;> cases h; exact ⟨rfl, locate_in_hunk hunks w (Or.inl hl)⟩
+  | invalid => rw [hl] at h; rcases h with h | ⟨c', h⟩ <;> cases h
 
 /-! ## 2. The translated coordinate is the true commit line number — for every unstaged change -/
 
@@ -190,6 +192,40 @@ theorem regression_unstaged_deletion :
 theorem regression_unstaged_replacement_above :
     classify [3] [⟨1, 1, 2⟩] 4 = .committed 3 ∧ Old.classify [3] [1, 2] 4 = .dropped := by decide
 
+/-- **regression (committed, then modified again).** An agent rewrites line 2 and the file is staged
+    (the commit adds line 2); the agent rewrites the line once more in the working tree
+    (`@@ -2 +2 @@`) and its working-log entry credits working-tree line 2 to session `s`. The commit's
+    version is credited in the note AND the working-tree version stays pending (INITIAL) — before
+    `fix: the working-tree version of a line modified again after staging stays pending` only the note
+    got it and the second version was committed later as a person's. -/
+theorem regression_modified_again_stays_pending :
+    classify [2] [⟨1, 2, 1⟩] 2 = .both 2 2 ∧
+    splitFile [⟨2, 2, ['s']⟩] [2] [⟨1, 2, 1⟩] = ([(['s'], [2])], [(['s'], [2])]) := by decide
+
+/-! ### once: the translation is strictly increasing -/
+
+/-- the code's translation agrees with the script on every working-tree line -/
+theorem locate_eq_specPos {α} (segs : List (Seg α)) (w : Nat) (h1 : 1 ≤ w) (h2 : w ≤ (workOf segs).length)
+    (hsz : (commitOf segs).length ≤ u32Max) :
+    specPos segs 0 w = some (locate (hunksOf segs) w) := by
+  rcases work_line_cases segs w h1 h2 with ⟨pre, x, post, he, hw⟩ | ⟨pre, o, n, post, k, he, hk, hw⟩
+  · subst he; subst hw
+    rw [specPos_eq_line, (split_coordinates pre post x hsz).1]
+    simp
+  · subst he; subst hw
+    rw [specPos_new_line pre post o n k hk, (changed_line_position pre post o n k hk hsz).1]
+    simp
+
+/-- **once.** For the hunks of any edit script: two different working-tree lines are never sent to
+    the same commit line (whether as unchanged lines or as replaced ones); the translation is strictly
+    increasing. So a commit line is credited through at most one working-tree line. -/
+theorem locate_strictMono {α} (segs : List (Seg α)) (w1 w2 : Nat) (h1 : 1 ≤ w1) (h12 : w1 < w2)
+    (h2 : w2 ≤ (workOf segs).length) (hsz : (commitOf segs).length ≤ u32Max) (c1 c2 : Nat)
+    (l1 : (locate (hunksOf segs) w1).line? = some c1) (l2 : (locate (hunksOf segs) w2).line? = some c2) :
+    c1 < c2 :=
+  specPos_strictMono segs 0 w1 w2 h1 h12 _ _ c1 c2
+    (locate_eq_specPos segs w1 h1 (by omega) hsz) (locate_eq_specPos segs w2 (by omega) h2 hsz) l1 l2
+
 /-! ## 3. What reaches the note and INITIAL is sorted, duplicate-free and inside the hunks -/
 
 theorem pushTo_mem (k : Str) (v : Nat) (m : List (Str × List Nat)) (k' : Str) (vs : List Nat) (x : Nat)
@@ -237,14 +273,25 @@ theorem stepLine_ok (committed : List Nat) (hunks : List Hunk) (author : Str) (a
     intro k vs x hm hx
     rcases pushTo_mem author l acc.unc k vs x hm hx with ⟨vs', h', hx'⟩ | ⟨_, rfl⟩
     · exact h.2 k vs' x h' hx'
-    · obtain ⟨rfl, hg⟩ := classify_uncommitted_mem _ _ _ _ hcl
+    · obtain ⟨rfl, hg⟩ := classify_uncommitted_mem _ _ _ _ (Or.inl hcl)
       exact hg
   · rename_i c hcl
     refine ⟨?_, h.2⟩
     intro k vs x hm hx
     rcases pushTo_mem author c acc.com k vs x hm hx with ⟨vs', h', hx'⟩ | ⟨_, rfl⟩
     · exact h.1 k vs' x h' hx'
-    · exact classify_committed_mem _ _ _ _ hcl
+    · exact classify_committed_mem _ _ _ _ (Or.inl hcl)
+  · rename_i c l hcl
+    refine ⟨?_, ?_⟩
+    · intro k vs x hm hx
+      rcases pushTo_mem author c acc.com k vs x hm hx with ⟨vs', h', hx'⟩ | ⟨_, rfl⟩
+      · exact h.1 k vs' x h' hx'
+      · exact classify_committed_mem _ _ _ _ (Or.inr ⟨l, hcl⟩)
+    · intro k vs x hm hx
+      rcases pushTo_mem author l acc.unc k vs x hm hx with ⟨vs', h', hx'⟩ | ⟨_, rfl⟩
+      · exact h.2 k vs' x h' hx'
+      · obtain ⟨rfl, hg⟩ := classify_uncommitted_mem _ _ _ _ (Or.inr ⟨c, hcl⟩)
+        exact hg
   · exact h
 
 theorem foldl_stepLine_ok (committed : List Nat) (hunks : List Hunk) (author : Str) (ws : List Nat) (acc : Acc)
@@ -387,6 +434,8 @@ end GitAi.Sys
 #print axioms GitAi.Split3.work_line_cases
 #print axioms GitAi.Split3.regression_unstaged_deletion
 #print axioms GitAi.Split3.regression_unstaged_replacement_above
+#print axioms GitAi.Split3.regression_modified_again_stays_pending
+#print axioms GitAi.Split3.locate_strictMono
 #print axioms GitAi.Split3.split_outputs_wf
 #print axioms GitAi.Sys.every_commit_exact
 #print axioms GitAi.Sys.pending_line_carried
